@@ -90,6 +90,82 @@ def render_topology(case):
     return {'elements': els, 'connections': cx}
 
 
+# ------------------------------------------------------------------------- DesignLifecycle document -> real inputs
+# ROADM equalisation flavours: (default key, default value, per-degree key, per-degree value); the reference carrier
+# (32 Gbaud in a 50 GHz slot) leaves at -20 dBm under each default and about 1 dB higher under each per-degree target
+EQUALISATION = {'power': ('target_pch_out_db', -20, 'per_degree_pch_out_db', -19),
+                'psd': ('target_psd_out_mWperGHz', 3.125e-4, 'per_degree_psd_out_mWperGHz', 4.0e-4),
+                'psw': ('target_out_mWperSlotWidth', 2.0e-4, 'per_degree_psd_out_mWperSlotWidth', 2.5e-4)}
+LOW_GAIN_ONLY = ['std_low_gain']
+
+
+def render_line(doc):
+    """document of spec/DesignLifecycle.tla (emitted by MC_DesignLifecycle.Emit) -> legacy topology JSON:
+        trx A - roadm A - Edfa AB1 - Fiber AB2 - Edfa AB3 - roadm B - trx B     (the modelled line; B -> A: a plain fibre)
+    roadm A has a second degree (plain fibres to and from roadm C) that never has a target of its own.  One model unit is
+    rendered as 1 dB (5 km of fibre); a setting the document leaves open (NONE) is absent from the JSON; an amplifier whose model is `known`
+    names std_medium_gain; `restrict`: roadm A only permits std_low_gain as booster, roadm B as preamplifier."""
+    def loc(city):
+        return {'location': {'latitude': 0.0, 'longitude': 0.0, 'city': city, 'region': 'r'}}
+
+    def amp(uid, slot):
+        d = {'uid': uid, 'type': 'Edfa', 'metadata': loc(uid[-3])}
+        if slot['known']:
+            d['type_variety'] = 'std_medium_gain'
+        op = {}
+        if slot['gain'] != NONE:
+            op['gain_target'], op['tilt_target'] = float(slot['gain']), 0
+        if slot['dp'] != NONE:
+            op['delta_p'] = float(slot['dp'])
+        if slot['voa'] != NONE:
+            op['out_voa'] = float(slot['voa'])
+        if op:
+            d['operational'] = op
+        return d
+
+    def fibre(uid, km, con_out=None, att_in=0):
+        d = {'uid': uid, 'type': 'RamanFiber' if doc['raman'] and uid == 'Fiber AB2' else 'Fiber', 'type_variety': 'SSMF',
+             'metadata': loc(uid[-3:-1]),
+             'params': {'length': km, 'length_units': 'km', 'loss_coef': 0.2, 'con_in': None, 'con_out': con_out}}
+        if att_in:
+            d['params']['att_in'] = att_in
+        if d['type'] == 'RamanFiber':
+            d['operational'] = copy.deepcopy(RAMAN_OPERATIONAL)
+            d['params'].update(con_in=0.5, con_out=0.5 if con_out is None else con_out)
+        return d
+    r = doc['roadm']
+    pa, pb = {}, {}
+    if r['def'] != 'power':                                      # power equalisation is the library's default
+        pa[EQUALISATION[r['def']][0]] = EQUALISATION[r['def']][1]
+    if r['deg'] != 'none':
+        pa[EQUALISATION[r['deg']][2]] = {'Edfa AB1': EQUALISATION[r['deg']][3]}
+    if r['restrict']:
+        pa['restrictions'] = {'preamp_variety_list': [], 'booster_variety_list': list(LOW_GAIN_ONLY)}
+        pb['restrictions'] = {'preamp_variety_list': list(LOW_GAIN_ONLY), 'booster_variety_list': []}
+    els = [{'uid': f'trx {x}', 'type': 'Transceiver', 'metadata': loc(x)} for x in 'ABC']
+    for x, prm in (('A', pa), ('B', pb), ('C', {})):
+        e = {'uid': f'roadm {x}', 'type': 'Roadm', 'metadata': loc(x)}
+        if prm:
+            e['params'] = prm
+        els.append(e)
+    els += [amp('Edfa AB1', doc['amps'][0]),
+            fibre('Fiber AB2', doc['base'] * 5, None if doc['conOut'] == NONE else float(doc['conOut']), float(doc['attIn'])),
+            amp('Edfa AB3', doc['amps'][1]), fibre('Fiber BA1', 80), fibre('Fiber AC1', 80), fibre('Fiber CA1', 80)]
+
+    def chain(*uids):
+        return [{'from_node': a, 'to_node': b} for a, b in zip(uids, uids[1:])]
+    cx = chain('trx A', 'roadm A', 'Edfa AB1', 'Fiber AB2', 'Edfa AB3', 'roadm B', 'trx B') + \
+        chain('trx B', 'roadm B', 'Fiber BA1', 'roadm A', 'trx A') + \
+        chain('roadm A', 'Fiber AC1', 'roadm C', 'trx C') + chain('trx C', 'roadm C', 'Fiber CA1', 'roadm A')
+    return {'elements': els, 'connections': cx}
+
+
+def line_settings(cfg):
+    """Span settings record of DesignLifecycle (one unit = 1 dB) -> the settings record equipment_for() takes"""
+    return dict(padding=cfg['padding'] * UDB, eol=cfg['eol'] * UDB, maxLen=150000, powerMode=bool(cfg['powerMode']),
+                conIn=300000, conOut=400000)
+
+
 @lru_cache(maxsize=None)
 def _base_eqpt():
     return json.loads((EX / 'eqpt_config.json').read_text())
